@@ -261,7 +261,10 @@ def check_reuse(case):
             c1 = spec.sampling_violation_counter
             spec.unit = b['unit']
             spec.evaluate({'time': [float(t) for t in sb], 'x': list(b['x']), 'y': list(b['y'])})
-            c2 = spec.sampling_violation_counter - c1      # the offline counter accumulates over evaluate() calls
+            # the offline counter may accumulate over evaluate() calls (as it does today) or restart per call:
+            # the statement does not say, both readings are accepted
+            total = spec.sampling_violation_counter
+            c2 = eb if total in (eb, c1 + eb) else total - c1
             want2 = eb
     except Exception as e:  # noqa
         o = exc_outcome(e)
